@@ -200,9 +200,9 @@ Qed.
 Lemma ev_opt_sim : forall st sc r, good (ev_opt ev1 st sc r) -> ev_opt ev2 st sc r = ev_opt ev1 st sc r.
 Proof. intros st sc [e|] H; simpl in *; [apply Hev; assumption|reflexivity]. Qed.
 
-Lemma ev_inits_seq_sim : forall bs st sc f, good (ev_inits_seq m1 ev1 st sc f bs) -> ev_inits_seq m2 ev2 st sc f bs = ev_inits_seq m1 ev1 st sc f bs.
+Lemma ev_inits_seq_sim : forall bs st sc, good (ev_inits_seq m1 ev1 st sc bs) -> ev_inits_seq m2 ev2 st sc bs = ev_inits_seq m1 ev1 st sc bs.
 Proof.
-  induction bs as [|[[x e] s0] bs IH]; intros st sc f H; simpl in *; [reflexivity|].
+  induction bs as [|[[x e] s0] bs IH]; intros st sc H; simpl in *; [reflexivity|].
   step noop. try (step noop). apply IH; assumption.
 Qed.
 
@@ -214,15 +214,15 @@ Proof.
   reflexivity.
 Qed.
 
-Lemma ev_steps_seq_sim : forall bs st sc f, good (ev_steps_seq m1 ev1 st sc f bs) -> ev_steps_seq m2 ev2 st sc f bs = ev_steps_seq m1 ev1 st sc f bs.
+Lemma ev_steps_seq_sim : forall bs st sc fs, good (ev_steps_seq m1 ev1 st sc fs bs) -> ev_steps_seq m2 ev2 st sc fs bs = ev_steps_seq m1 ev1 st sc fs bs.
 Proof.
-  induction bs as [|[[x e] [s0|]] bs IH]; intros st sc f H; simpl in *; [reflexivity| |apply IH; assumption].
+  induction bs as [|[[x e] [s0|]] bs IH]; intros st sc [|f fs] H; simpl in *; try reflexivity; [|apply IH; assumption].
   step noop. try (step noop). apply IH; assumption.
 Qed.
 
 Ltac rw_map := idtac; match goal with G : good (ev_map m1 ev1 _ _ _) |- _ => rewrite (ev_map_sim _ _ _ G); clear G end.
 Ltac rw_iter := idtac; match goal with G : good (ev_iter ev1 _ _ _ _ _ _) |- _ => rewrite (ev_iter_sim _ _ _ _ _ _ G); clear G end.
-Ltac rw_inits_seq := idtac; match goal with G : good (ev_inits_seq m1 ev1 _ _ _ _) |- _ => rewrite (ev_inits_seq_sim _ _ _ _ G); clear G end.
+Ltac rw_inits_seq := idtac; match goal with G : good (ev_inits_seq m1 ev1 _ _ _) |- _ => rewrite (ev_inits_seq_sim _ _ _ G); clear G end.
 Ltac rw_steps_par := idtac; match goal with G : good (ev_steps_par m1 ev1 _ _ _) |- _ => rewrite (ev_steps_par_sim _ _ _ G); clear G end.
 Ltac rw_steps_seq := idtac; match goal with G : good (ev_steps_seq m1 ev1 _ _ _ _) |- _ => rewrite (ev_steps_seq_sim _ _ _ _ G); clear G end.
 Ltac rw_any := first [rw_seq|rw_args|rw_inits|rw_test|rw_assign|rw_apply|rw_map|rw_iter|rw_inits_seq|rw_steps_par|rw_steps_seq].
